@@ -16,7 +16,7 @@ var confirmedCounts = map[string]map[string][2]int{ // rule -> prop -> {default,
 	"R7":  {"C17": {26, 29}, "C19": {22, 25}},
 	"R8":  {"C18": {19, 23}},
 	"R9":  {"C20": {14, 14}},
-	"R10": {"C10": {61, 70}},
+	"R10": {"C02": {62, 71}, "C10": {62, 71}},
 	"R11": {"C07": {10, 10}, "C08": {10, 10}},
 	"R12": {"C06": {11, 11}, "C07": {16, 17}, "C13": {5, 5}},
 	"R13": {"C01": {5, 5}, "C03": {5, 5}, "C06": {9, 9}, "C09": {9, 9}},
@@ -29,7 +29,7 @@ var confirmedCounts = map[string]map[string][2]int{ // rule -> prop -> {default,
 	"R20": {"C03": {2, 2}},
 	"R21": {"C16": {0, 4}},
 	"R22": {"C16": {0, 18}},
-	"R23": {"C14": {0, 14}},
+	"R23": {"C14": {0, 16}},
 	"R24": {"C05": {4, 4}, "C06": {5, 5}, "C13": {2, 2}, "C15": {1, 3}},
 	"R25": {"C05": {10, 10}, "C06": {18, 18}, "C09": {17, 17}, "C13": {9, 9}, "C15": {1, 5}},
 	"R26": {"C02": {1, 1}, "C03": {4, 4}, "C04": {3, 3}, "C05": {5, 5}, "C06": {4, 4}, "C13": {2, 2}},
